@@ -277,6 +277,8 @@ class Engine(ExprMixin, CallMixin, StmtMixin):
                 st.assume(self.spec_bool(r[6:] if r.startswith("ghost:") else r, st))
             for gname, gtext in c.ghost_init.items():
                 st.assume(self.equal(st.env[gname], self.coerce(self.spec_eval(gtext, st), c.ghosts[gname], fn), fn))
+            for gtext in getattr(c, "ghost_assume", []):
+                st.assume(self.spec_bool(gtext, st))
             c_expose = list(getattr(c, "expose", [])) + list(c.ghosts)
             entry_env = dict(st.env)
             pre = St(dict(st.env), dict(st.heap), list(st.pc), None, dict(st.ghost))
@@ -309,7 +311,7 @@ class Engine(ExprMixin, CallMixin, StmtMixin):
                 rep.error = "ghost annotation matches no reachable statement: " + "; ".join(dead)[:300]
         rep.obligations = self.obligations
         # vacuity guard: every postcondition of the contract was generated on at least one path
-        rep.untouched = [lab for lab, _ in c.ensures if f"post:{lab}" not in self.touched] if not rep.error else []
+        rep.untouched = [lab for lab, _ in c.ensures if f"post:{lab}" not in self.touched and not lab.startswith("rt:")] if not rep.error else []
         rep.gen_time_s = time.time() - t0
         return rep
 
@@ -349,6 +351,8 @@ class Engine(ExprMixin, CallMixin, StmtMixin):
                 env["final_" + name] = o.st.env[name]
         post_st = St(env, o.st.heap, o.st.pc, pre, o.st.ghost)
         for lab, e in c.ensures:
+            if lab.startswith("rt:"):
+                continue        # stated over an executable spec twin: evaluated around the real call at run time only
             self.oblige(o.st, "post", lab, self.spec_bool(e, post_st), fn)
         self._frame(c, o, pre, fn)
 
